@@ -193,6 +193,19 @@ func (r *Runner) c13After(s *Step, rep *Reply, before *Obs, shadowBefore map[str
 			if !strings.HasPrefix(kind, "invalid:") {
 				sg = r.Inst.Policy + ":valid-config-rejected"
 			}
+			// which parts of the observation changed: the known non-atomic rejection (KF3/KF6) is about container
+			// resources, assignments and their delivery, not about policy-internal state that steers later decisions
+			var tags []string
+			for _, t := range []struct{ tag, marker string }{{"containers", "container "}, {"zones", "advertised zone"}, {"assignments", "policy assignments differ"},
+				{"hidden", "policy-internal state"}, {"pushed", "updates pushed"}, {"pending", "undelivered changes"}} {
+				for _, x := range d {
+					if strings.Contains(x, t.marker) {
+						tags = append(tags, t.tag)
+						break
+					}
+				}
+			}
+			sg += ":changed=" + strings.Join(tags, "+")
 			sg += r.BrokenStateSuffix()
 			r.Violate("C13", "rejected-not-atomic", sg, "rejected configuration (%s: %s) changed state: %s", kind, trunc(rep.Err, 160), strings.Join(d, " | "))
 		}
